@@ -356,12 +356,22 @@ func (e *Engine) locComps(base TExpr, field string) []string {
 	return nil
 }
 
+// isOpaque: a library struct type whose fields are not modelled (its objects are bare references).
+func (e *Engine) isOpaque(t types.Type) bool {
+	named, ok := t.(*types.Named)
+	return ok && opaqueExternal[e.sorts.typeName(named)]
+}
+
 func (e *Engine) initOpaque(tr *Trans, named *types.Named, ref string) {
 	// zero value facts for opaque library objects allocated locally
 	switch e.sorts.typeName(named) {
 	case "maphash.Hash":
 		if srt, ok := e.ghost["HashStream"]; ok {
 			tr.upd("HashStream", srt, ref, "hs_empty")
+		}
+	case "bytes.Buffer":
+		if srt, ok := e.ghost["BufVal"]; ok {
+			tr.upd("BufVal", srt, ref, "bs_empty")
 		}
 	}
 }
@@ -687,7 +697,38 @@ func (e *Engine) specPrelude() string {
 				e.fatal("axiom %s: %v", a.Name, err)
 				continue
 			}
+			if a.Opaque {
+				fl := "reveal$" + sanitize(a.Name)
+				sb.WriteString(fmt.Sprintf("(declare-const %s Bool)\n(assert (! (=> %s %s) :named ax_%s))\n", fl, fl, te.E, sanitize(a.Name)))
+				continue
+			}
 			sb.WriteString(fmt.Sprintf("(assert (! %s :named ax_%s))\n", te.E, sanitize(a.Name)))
+		}
+	}
+	return sb.String()
+}
+
+// revealAsserts fixes, for one function, which opaque axioms are available.
+func (e *Engine) revealAsserts(ct *Contract) string {
+	var sb strings.Builder
+	for _, sf := range e.specFiles {
+		for _, a := range sf.Axioms {
+			if !a.Opaque {
+				continue
+			}
+			on := false
+			if ct != nil {
+				for _, r := range ct.Reveal {
+					if r == a.Name {
+						on = true
+					}
+				}
+			}
+			if on {
+				sb.WriteString("(assert reveal$" + sanitize(a.Name) + ")\n")
+			} else {
+				sb.WriteString("(assert (not reveal$" + sanitize(a.Name) + "))\n")
+			}
 		}
 	}
 	return sb.String()
